@@ -15,7 +15,7 @@ ASSUMPTIONS = ["local equirectangular placement: distortion <= ~3e-3 relative at
                "on the log-probability", "emitting-only, no cut-offs, no width (as the statement says)"]
 TOLERANCES = {"logprob": "1e-2 relative + 1e-3 absolute + (distance family) propagated along-edge position noise of 0.1 m: "
                          "sum over steps of (0.4 |d_o - d_s| + 0.04) / (2 dist_noise^2)"}
-BUDGET = {"quick": {"shards": 8, "examples": 400}, "thorough": {"shards": 16, "examples": 7000}}
+BUDGET = {"quick": {"shards": 8, "examples": 800}, "thorough": {"shards": 16, "examples": 7000}}
 
 
 def discontinuity(case):
